@@ -187,3 +187,12 @@ Definition topics_of_cluster (cluster : md_response) (asked : option (list str))
   | None => md_topics cluster
   | Some names => map (cluster_topic (md_topics cluster)) (str_nodup [] names)
   end.
+
+(* ---- the Transport's split round trip ---- *)
+(* what happens to the sub-request for entry e, as a function of the entry (its leader
+   answers, or the round trip to that leader fails) *)
+Definition send_of (outcome_of : str * req_part -> outcome) (q : lo_request) : sub_result :=
+  match q_topics q with
+  | [(t, [p])] => result_of (t, p) (outcome_of (t, p))
+  | _ => SubErr 0
+  end.
